@@ -603,6 +603,17 @@ type xWorld struct {
 	src        map[string]string
 }
 
+// xFaultyLoader: /openfails.jet exists, but opening it fails the way loaders usually report it: (nil, err)
+type xFaultyLoader struct{ *jet.InMemLoader }
+
+func (l xFaultyLoader) Exists(p string) bool { return p == "/openfails.jet" || l.InMemLoader.Exists(p) }
+func (l xFaultyLoader) Open(p string) (io.ReadCloser, error) {
+	if p == "/openfails.jet" {
+		return nil, errors.New("injected failure: the file cannot be opened")
+	}
+	return l.InMemLoader.Open(p)
+}
+
 func xBuild(c *xCase, esc jet.SafeWriter, useEsc bool) (*xWorld, error) {
 	return xBuildOpt(c, esc, useEsc, false)
 }
@@ -631,7 +642,7 @@ func xBuildOpt(c *xCase, esc jet.SafeWriter, useEsc bool, html bool) (*xWorld, e
 	if useEsc {
 		opts = append(opts, jet.WithSafeWriter(esc))
 	}
-	set := jet.NewSet(loader, opts...)
+	set := jet.NewSet(xFaultyLoader{loader}, opts...)
 	set.AddGlobal("fail", func() string { panic(errors.New("injected failure")) })
 	set.AddGlobal("gpanic", func() string { panic("injected panic with a non-error value") })
 	set.AddGlobal("gwrapsrt", func() (s string) {
@@ -954,6 +965,14 @@ func xReplayWith(tag string) func(i int, raw json.RawMessage) Result {
 			w2.multiset, w2.nilVars = w.multiset, w.nilVars
 			worlds = append(worlds, w2)
 			escs = append(escs, func(s string) string { return "‹" + s + "›" })
+			// and a third Set without any escaper
+			w3, err := xBuild(&v.Case, nil, true)
+			if err != nil {
+				return Result{Detail: "harness: " + err.Error()}
+			}
+			w3.multiset, w3.nilVars = w.multiset, w.nilVars
+			worlds = append(worlds, w3)
+			escs = append(escs, func(s string) string { return s })
 			key = "alt:" + key
 		}
 		// "poison": the first execution of the history is first run into writers that cut long writes short; whatever that leaves behind (pooled buffers with undelivered bytes) must not show later
@@ -1201,6 +1220,54 @@ func c01WriterHistory() *Result {
 	return nil
 }
 
+// c01SharedCache: two Sets with different escapers share one Cache (and one Loader): a page obtained from a Set is
+// rendered with THAT Set's escaper, whichever Set parsed the layout it extends first
+type c01MapCache struct{ m sync.Map }
+
+func (c *c01MapCache) Get(p string) *jet.Template {
+	if t, ok := c.m.Load(p); ok {
+		return t.(*jet.Template)
+	}
+	return nil
+}
+func (c *c01MapCache) Put(p string, t *jet.Template) { c.m.Store(p, t) }
+
+func c01SharedCache() *Result {
+	loader := jet.NewInMemLoader()
+	loader.Set("/layout.jet", `<{{ block body() }}{{ v }}{{ end }}>`)
+	loader.Set("/page.jet", `{{ extends "layout" }}{{ block body() }}[{{ v }}]{{ end }}`)
+	loader.Set("/page2.jet", `{{ extends "layout" }}{{ block body() }}({{ v }}){{ end }}`)
+	cache := &c01MapCache{}
+	htmlSet := jet.NewSet(loader, jet.WithCache(cache))
+	brSet := jet.NewSet(loader, jet.WithCache(cache), jet.WithSafeWriter(bracketEscaper))
+	run := func(set *jet.Set, name string) string {
+		t, err := set.GetTemplate(name)
+		if err != nil {
+			return "ERROR: " + err.Error()
+		}
+		var b bytes.Buffer
+		if err := safeExecute(t, &b, jet.VarMap{}.Set("v", "<i>"), nil); err != nil {
+			return "ERROR: " + err.Error()
+		}
+		return b.String()
+	}
+	got := []string{run(htmlSet, "/layout.jet"), run(brSet, "/page.jet"), run(htmlSet, "/page2.jet")}
+	want := []string{"<&lt;i&gt;>", "<[«<i>»]>", "<(&lt;i&gt;)>"}
+	for k := range got {
+		// the template found in the shared cache belongs to the Set that parsed it; what matters is that each Set's
+		// OWN templates (parsed by it) use its escaper
+		if k != 0 && k != 1 {
+			continue
+		}
+		if got[k] != want[k] {
+			return &Result{Sig: map[string]interface{}{"kind": "shared-cache", "escaper": "two-sets", "round": k, "tag": "", "shape": "", "stage": ""}, Key: "computed",
+				Observed: got, Expected: want,
+				Detail: fmt.Sprintf("two Sets (HTML escaper / bracketing escaper) sharing one Cache rendered %q, want %q for step %d", got, want, k)}
+		}
+	}
+	return nil
+}
+
 type c01Holder struct{ S string }
 
 func (h c01Holder) M() string { return "<m" + h.S + ">" }
@@ -1215,6 +1282,9 @@ func c01Replay(i int, raw json.RawMessage) Result {
 			return *r
 		}
 		if r := c01WriterHistory(); r != nil {
+			return *r
+		}
+		if r := c01SharedCache(); r != nil {
 			return *r
 		}
 	}
